@@ -124,6 +124,14 @@ def r2(run):
                         guards += q.edge_triples(b, bb, lambda m: m is True)
                 if guards and q.dominated(b, c.bb, via_edges=guards):
                     cls, why = "prefix-guarded", "strip_prefix(%s).unwrap() dominated by starts_with(%s)" % (lit, lit)
+            if cls is None and c.fn.endswith("Index::index") and len(c.args) > 1:
+                # `buf = &buf[n..]` with n = the count an I/O call on that same buffer returned (n <= buf.len() by the Read / Write contract)
+                rng = strip(c.arg(1))
+                if rng[0] == "agg" and "Range" in rng[1].get("adt", "") and rng[2]:
+                    io = [y[1] for op in rng[2] for o in list(q.origins(op)) + [op] for y in walk(o)
+                          if y[0] == "call" and y[1].fn.endswith(("AsyncWriteExt::write", "io::Write::write", "AsyncReadExt::read", "io::Read::read"))]
+                    if io and all(len(x.args) > 1 for x in io):
+                        cls, why = "io-count", "the slice bound is the byte count returned by %s on this buffer" % io[0].fn.split("::")[-1]
             if cls is None and fn == HANDLE and b.kind == "Closure" and not b.is_coroutine and recv[0] == "arg":
                 # the map closure of the CAS ReaderStream
                 key = "xs::api::handle|cas-stream-map"
